@@ -99,7 +99,8 @@ pub(crate) fn leading_string_literal(text: &str) -> Option<String> {
         let close = format!("\"{}", "#".repeat(hashes));
         body + text[body..].find(&close)? + close.len()
     };
-    syn::parse_str::<syn::LitStr>(&text[..end])
+    // the compiler reads a CR LF line break inside a literal as LF
+    syn::parse_str::<syn::LitStr>(&text[..end].replace("\r\n", "\n"))
         .ok()
         .map(|literal| literal.value())
 }
@@ -118,6 +119,34 @@ fn find_word(text: &str, word: &str) -> Option<usize> {
             return Some(start);
         }
         from = end;
+    }
+    None
+}
+
+/// Byte position of the validator `name` in the (masked) argument list of a validate attribute:
+/// an item of the list itself, `length(..)`, not the word inside the arguments of another
+/// validator (`custom(function = checks::length::not_blank)`)
+fn find_validator(masked: &str, name: &str) -> Option<usize> {
+    let mut depth = 0usize;
+    let mut item_start = 0;
+    for (pos, c) in masked.char_indices().chain([(masked.len(), ',')]) {
+        match c {
+            '(' | '[' | '{' => depth += 1,
+            ')' | ']' | '}' => depth = depth.saturating_sub(1),
+            ',' if depth == 0 => {
+                let item = &masked[item_start..pos];
+                let lead = item.len() - item.trim_start().len();
+                let word: String = item[lead..]
+                    .chars()
+                    .take_while(|c| c.is_alphanumeric() || *c == '_')
+                    .collect();
+                if word == name {
+                    return Some(item_start + lead);
+                }
+                item_start = pos + 1;
+            }
+            _ => {}
+        }
     }
     None
 }
@@ -242,7 +271,7 @@ impl ValidatorParser {
     fn parse_length_from_tokens(&self, tokens: &str) -> Option<LengthConstraint> {
         // Keywords and numbers are parsed from a copy with blanked-out string literals
         let masked = mask_string_literals(tokens);
-        if find_word(&masked, "length").is_none() {
+        if find_validator(&masked, "length").is_none() {
             return None;
         }
 
@@ -253,7 +282,7 @@ impl ValidatorParser {
         };
 
         // Simple regex-like parsing for length(min = X, max = Y, message = "...")
-        if let Some(start) = find_word(&masked, "length") {
+        if let Some(start) = find_validator(&masked, "length") {
             if let Some(paren_start) = masked[start..].find('(') {
                 let open = start + paren_start + 1;
                 if let Some(paren_end) = find_closing_paren(&masked[open..]) {
@@ -309,7 +338,7 @@ impl ValidatorParser {
     fn parse_range_from_tokens(&self, tokens: &str) -> Option<RangeConstraint> {
         // Keywords and numbers are parsed from a copy with blanked-out string literals
         let masked = mask_string_literals(tokens);
-        if find_word(&masked, "range").is_none() {
+        if find_validator(&masked, "range").is_none() {
             return None;
         }
 
@@ -320,7 +349,7 @@ impl ValidatorParser {
         };
 
         // Simple regex-like parsing for range(min = X, max = Y, message = "...")
-        if let Some(start) = find_word(&masked, "range") {
+        if let Some(start) = find_validator(&masked, "range") {
             if let Some(paren_start) = masked[start..].find('(') {
                 let open = start + paren_start + 1;
                 if let Some(paren_end) = find_closing_paren(&masked[open..]) {
